@@ -1,7 +1,7 @@
 """C02 Payload framing is separator-exact, order-preserving and bounded."""
 import urllib.parse
 
-from vf.rt import P, cond, verdict, fail
+from vf.rt import P, cond, verdict, fail, untraced
 from vf.oracles.refs import ref_wire_text
 from engineio import packet, payload
 from engineio import json as eio_json
@@ -102,6 +102,38 @@ def invert_sym_text(n: int, t0: int, t1: int, t2: int, s0: str, s1: str, s2: str
 def _forms(body):
     return (body, 'd=' + urllib.parse.quote(body), 'd=' + urllib.parse.quote_plus(body),
             'd=' + urllib.parse.quote(body, safe='') + '&x=1')
+
+
+def _decode_twice(k0, k1, form):
+    """Decoding is a function of the text: what a consumer does to the packets of one decoding (here: emptying every JSON
+    container it was handed) does not change what the next decoding of the same text returns."""
+    made = [_mk(packet.MESSAGE, k, '', False) for k in (k0, k1)]
+    expected = [(m[0].packet_type, m[1]) for m in made]
+    body = payload.Payload(packets=[m[0] for m in made]).encode()
+    text = _forms(body)[form]
+    for rnd in range(3):
+        try:
+            dec = payload.Payload(encoded_payload=text).packets
+        except Exception as e:  # noqa
+            return fail(PROP, 'INVERT-FORM', 'decode #%d of %r raised %s: %s' % (rnd + 1, text, type(e).__name__, e))
+        m = _cmp(dec, expected)
+        if m:
+            return fail(PROP, 'INVERT-REPEATED', 'decode #%d of the same text %r: %s' % (rnd + 1, text, m))
+        for p_ in dec:
+            if isinstance(p_.data, dict):
+                p_.data.clear()
+            elif isinstance(p_.data, list):
+                del p_.data[:]
+    return ''
+
+
+@cond(quick=dict(timeout=60), thorough=dict(timeout=120))
+def decode_twice(k0: int, k1: int, form: int) -> str:
+    """
+    pre: 0 <= k0 < len(_TABLE) and 0 <= k1 < len(_TABLE) and 0 <= form <= 3
+    post: _ == ''
+    """
+    return verdict(untraced(_decode_twice, k0, k1, form))
 
 
 _K1 = (0, 4, 8, 11, 13)        # second-packet subset of _TABLE: text, JSON text, binary, none, null literal
